@@ -145,30 +145,16 @@ func findMediaByURL(
 				return media
 			}
 		} else {
+			// compare URL components instead of URLs in string format,
+			// since the same path can be escaped in several ways.
+
 			// FFmpeg format
-			u1 := &base.URL{
-				Scheme:   u.Scheme,
-				Host:     u.Host,
-				Path:     path,
-				RawQuery: query,
-			}
-			if query != "" {
-				u1.RawQuery += "/" + media.Control
-			} else {
-				u1.Path += "/" + media.Control
-			}
-			if u1.String() == u.String() {
+			if u.Path == path && u.RawQuery == (query+"/"+media.Control) {
 				return media
 			}
 
 			// GStreamer format
-			u2 := &base.URL{
-				Scheme:   u.Scheme,
-				Host:     u.Host,
-				Path:     path + "/" + media.Control,
-				RawQuery: query,
-			}
-			if u2.String() == u.String() {
+			if u.Path == (path+"/"+media.Control) && u.RawQuery == query {
 				return media
 			}
 		}
